@@ -49,6 +49,9 @@ def oracle(toks, line):
         return line == ("ok " + " ".join(map(str, vs)) if all(rep(to, v) for v in vs) else "abort")
     if op == "convblk":
         return " oracle_bad=0 " in line + " "
+    if op == "tvtv":
+        g = guest_of(toks[1], toks[2]); v = int(toks[4], 0)
+        return line == (f"ok guest={v}" if rep(g, v) else "abort")
     if op == "tvstore_x":
         g = guest_of(toks[1], toks[2]); v = int(toks[4], 0)
         return line == (f"ok guest={v}" if rep(g, v) else "abort")
@@ -157,6 +160,15 @@ def run(chk):
                 g = guest_of(abi, t); ua = TYPES[u]
                 for v in boundary_values(g, ua, rng, 6 if thorough else 1):
                     ops.append(f"tvstore_x {abi} {t} {u} {v}")
+    # (6) a sandbox reference assigned from a sandbox reference of ANOTHER integer type: `*p_T = *p_U` (guest U -> guest T)
+    for abi in ABIS:
+        for t in ("schar", "uchar", "short", "ushort", "int", "uint", "long", "ulong", "llong"):
+            for u in ("schar", "uchar", "short", "ushort", "int", "uint", "long", "ulong", "llong"):
+                if t == u:
+                    continue
+                g = guest_of(abi, t); gu = guest_of(abi, u)
+                for v in boundary_values(g, gu, rng, 4 if thorough else 1):
+                    ops.append(f"tvtv {abi} {t} {u} {v}")
     res = core.differential(chk, ops, binp, oracle, scope=scope, neighbours=neighbours, label="conv ops")
     # type table of the platform must be the one the model assumes
     items_in_blocks = 0
